@@ -1,6 +1,7 @@
 package harness
 
 import (
+	"bytes"
 	"context"
 	"encoding/json"
 	"errors"
@@ -21,11 +22,12 @@ type c15Cell struct {
 	Mode     string `json:"mode"`     // seq | conc
 	Deleters string `json:"deleters"` // SM | SY | SM+SY | SM+faulty | OF
 	NKeys    int    `json:"nkeys"`
-	Repeat   bool   `json:"repeat"`          // every AddLabels call is issued twice
-	Cumul    bool   `json:"cumul,omitempty"` // labels are added with a growing list: AddLabels(k,l1); AddLabels(k,l1,l2); ...
-	Reverse  bool   `json:"reverse"`         // registration order reversed
-	Names    int    `json:"names"`           // cache names (2: keys alternate between names, no fault injection)
-	Shard    int    `json:"shard"`           // incidence structures are split over NShards cells
+	Repeat   bool   `json:"repeat"`            // every AddLabels call is issued twice
+	Cumul    bool   `json:"cumul,omitempty"`   // labels are added with a growing list: AddLabels(k,l1); AddLabels(k,l1,l2); ...
+	Collide  bool   `json:"collide,omitempty"` // key 0 and key 1 have the same 64-bit hash
+	Reverse  bool   `json:"reverse"`           // registration order reversed
+	Names    int    `json:"names"`             // cache names (2: keys alternate between names, no fault injection)
+	Shard    int    `json:"shard"`             // incidence structures are split over NShards cells
 	NShards  int    `json:"nshards"`
 	Prog     int    `json:"prog,omitempty"` // conc: program index
 	Fail     int    `json:"fail,omitempty"` // conc: 1+index of the Delete call that fails during the concurrent phase (0 = none)
@@ -54,6 +56,14 @@ func c15Cells(tier string) []Cell {
 
 		for sh := 0; sh < nsh; sh++ {
 			cells = append(cells, Cell{ID: c15Cell{Mode: "seq", Deleters: d, NKeys: nkeys, Cumul: true, Names: 1, Shard: sh, NShards: nsh}.id()})
+		}
+
+		// two of the keys collide in the 64-bit hash: the later write displaces the earlier entry in the hash-slot
+		// backends; a Delete issued for the displaced key must not remove the other one
+		for _, rev := range []bool{false, true} {
+			for sh := 0; sh < nsh; sh++ {
+				cells = append(cells, Cell{ID: c15Cell{Mode: "seq", Deleters: d, NKeys: nkeys, Reverse: rev, Collide: true, Names: 1, Shard: sh, NShards: nsh}.id()})
+			}
 		}
 
 		cells = append(cells, Cell{ID: c15Cell{Mode: "seq", Deleters: d, NKeys: nkeys, Names: 2, Shard: 0, NShards: 1}.id()})
@@ -142,7 +152,23 @@ func (f deleterFn) Delete(ctx context.Context, key []byte) error { return f(ctx,
 
 func deleterOf(b backend) cache.Deleter { return deleterFn(b.Delete) }
 
-func c15Key(i int) []byte { return []byte(fmt.Sprintf("key-%d", i)) }
+// c15Collide makes key 0 and key 1 two different keys with the same xxhash64 (set for the duration of a cell).
+var (
+	c15Collide  bool
+	c15CollKeys [][]byte
+)
+
+func c15Key(i int) []byte {
+	if c15Collide && i < 2 {
+		if c15CollKeys == nil {
+			c15CollKeys = collidingKeys(bytes.Repeat([]byte("c15-collision-base-"), 4)[:64], 2)
+		}
+
+		return c15CollKeys[i]
+	}
+
+	return []byte(fmt.Sprintf("key-%d", i))
+}
 
 func (e *c15Env) present(name string, key []byte) []bool {
 	var res []bool
@@ -275,6 +301,18 @@ func c15One(cc c15Cell, cs c15Case) (string, string, int, int) {
 
 	populate()
 
+	// what is there before the call under test (with colliding keys a later write has displaced an earlier entry)
+	presence := func() [][]bool {
+		r := make([][]bool, cc.NKeys)
+		for i := range r {
+			r[i] = e.present(nameOf(i), c15Key(i))
+		}
+
+		return r
+	}
+
+	base := presence()
+
 	selected := func(i int) bool {
 		for _, l := range labelsOf(i) {
 			for _, a := range cs.Args {
@@ -319,8 +357,8 @@ func c15One(cc c15Cell, cs c15Case) (string, string, int, int) {
 				return "incomplete", fmt.Sprintf("%s: key %d carries a selected label but is still present in caches %v of its name", label, i, pr)
 			}
 
-			if !selected(i) && !allTrue(pr) {
-				return "imprecise", fmt.Sprintf("%s: key %d carries none of the labels %v but is gone from caches %v", label, i, cs.Args, pr)
+			if !selected(i) && fmt.Sprint(pr) != fmt.Sprint(base[i]) {
+				return "imprecise", fmt.Sprintf("%s: key %d carries none of the labels %v but its presence in the caches of its name changed from %v to %v", label, i, cs.Args, base[i], pr)
 			}
 		}
 
@@ -351,6 +389,7 @@ func c15One(cc c15Cell, cs c15Case) (string, string, int, int) {
 		if cs.FailAt < 0 {
 			populate()
 
+			base = presence()
 			before2 := e.total()
 			cnt3, err3, p3 := call()
 
@@ -376,7 +415,7 @@ func c15One(cc c15Cell, cs c15Case) (string, string, int, int) {
 
 	// non-labelled keys untouched even on failure
 	for i := 0; i < cc.NKeys; i++ {
-		if !selected(i) && !allTrue(e.present(nameOf(i), c15Key(i))) {
+		if !selected(i) && fmt.Sprint(e.present(nameOf(i), c15Key(i))) != fmt.Sprint(base[i]) {
 			return "imprecise", fmt.Sprintf("after a failed call key %d (no selected label) is gone", i), ncalls, ops
 		}
 	}
@@ -413,6 +452,9 @@ func c15One(cc c15Cell, cs c15Case) (string, string, int, int) {
 
 func c15Seq(cc c15Cell, env *Env) CellResult {
 	res := CellResult{Exhaustive: true, Outcomes: map[string]int{}}
+
+	c15Collide = cc.Collide
+	defer func() { c15Collide = false }()
 
 	nargs := 2
 	if env.Thorough() {
@@ -719,7 +761,7 @@ func init() {
 	Register(&Prop{
 		ID: "C15", Title: "Label invalidation is complete, precise and loses nothing on failure",
 		Cells: c15Cells, Run: c15Run,
-		Rule: "(seq) every key->label-subset incidence over 3 (quick) / 4 (thorough) keys x 3 labels, optionally with repeated labelling, reversed or cumulative (growing label list) registration, and a second round of re-writing, re-labelling and invalidating on the same index, x every ordered label argument list of length <=2 / <=3 (duplicates included) " +
+		Rule: "(seq) every key->label-subset incidence over 3 (quick) / 4 (thorough) keys x 3 labels, optionally with repeated labelling, reversed or cumulative (growing label list) registration, two keys with the same 64-bit hash, and a second round of re-writing, re-labelling and invalidating on the same index, x every ordered label argument list of length <=2 / <=3 (duplicates included) " +
 			"x deleters {ShardedMap, SyncMap, ShardedMapOf, ShardedMap+SyncMap, two ShardedMaps} x a Delete failure injected at EVERY call position of the fault-free run (plus none), followed by a retry with the fault cleared; " +
 			"(conc) 2-3 threads of AddLabels / AddCache / InvalidateByLabels on a shared index, all schedules within the bound, then a final sweep: every key labelled before or during the run must be removable, counts must add up",
 		Assumptions: []string{
